@@ -177,7 +177,7 @@ def run_property(mod, tier: str, seed: int, replay: str | None = None, runs_over
     results, problems = simkit.run_pool(
         lambda it: _run_item((mod, it, tier)), items, workers=workers, chunk_size=chunk,
         per_chunk_timeout=budget.get("chunk_timeout", 300),
-        deadline=t0 + wall, scratch_tag=f"{prop}-{tier}")
+        deadline=t0 + wall, scratch_tag=f"{prop}-{tier}", solo=getattr(mod, "solo", None))
 
     if problems:
         for p in problems[:3]:
